@@ -41,6 +41,8 @@ NEW_OBJ_M = set(OPS.get("new_object_methods", []))               # maybe-view me
 INT_M = set(OPS.get("scalar_result_methods", []))                # size/dim/numel/item/...: results hold no storage whatever the receiver
 LIB_METHODS = set()     # every method name defined by a class of the package (filled per run from the source)
 TYPES = json.load(open(os.path.join(HERE, "c13_types.json")))
+DUNDER_INPLACE = {"__iadd__", "__isub__", "__imul__", "__itruediv__", "__ifloordiv__", "__imod__", "__ipow__", "__iand__", "__ior__",
+                  "__ixor__", "__ilshift__", "__irshift__", "__imatmul__", "__setitem__", "__delitem__", "__idiv__"}
 USED = {}               # (category, name) -> number of call sites classified that way (filled by Analyzer.call)
 RETURNS_FRESH = {}      # bare name of a module-level library function -> True if its results never alias its parameters
 
@@ -63,6 +65,7 @@ class Fn:
         self.mutated_params = set()
         self.list_of_lists = set()
         self.module_globals = set()
+        self.def_container = set()       # defs whose value is a freshly created python list / dict / set (or an update of one)
         self.local_closure_defs = set()   # defs created by a nested def / lambda / partial(...): calling them may return what they captured
         self.def_kind = {}       # x -> True if the value is known to be a plain tensor / number / tuple of such
         self.assumed_tensor_params = []
@@ -82,6 +85,8 @@ class Analyzer(ast.NodeVisitor):
         self.fn.ndefs += 1
         self.fn.def_info[x] = (name, lineno)
         self.fn.def_kind[x] = bool(kt)
+        if getattr(self, "next_def_is_container", False):
+            self.fn.def_container.add(x)
         self.fn.stmts.append(("let", x, kind, sorted(set(ys)), bool(may_fresh)))
         if kind == "param":
             self.fn.obj_stmts.append(("let", x, "param", []))
@@ -266,6 +271,9 @@ class Analyzer(ast.NodeVisitor):
                 return (E, True, False)          # module-level object: owned by the library/caller, never by this call
             return (self.env.get(e.id, E), False, e.id not in self.env)
         if isinstance(e, ast.Attribute):
+            if self.is_module(e.value) or self.is_lib_module(e.value):
+                # state held by a module / settings class (e.g. settings.deterministic_probes.probe_vectors): pre-existing, not ours
+                return (E, True, False)
             ys, sa, mf = self.alias(e.value)
             # an attribute of a caller-owned object is caller-owned; .mT/.T/.data/... are views
             return (ys, sa, mf)
@@ -389,6 +397,12 @@ class Analyzer(ast.NodeVisitor):
                 if m in META_INPLACE:
                     self.meta_inplace(f.value, e.lineno, m)
                 return (recv[0], recv[1], False)
+            if m in DUNDER_INPLACE:
+                # x.__iadd__(y), x.__setitem__(i, v), torch.Tensor.__imul__(x, y): in-place without the trailing underscore
+                self.used("inplace_method", m)
+                tgt = recv if (recv[0] or recv[1] or not args) else args[0]
+                self.inplace(tgt, e.lineno, "." + m)
+                return (tgt[0], tgt[1], False)
             if m.endswith("_") and not m.endswith("__") and m not in NOT_TENSOR_INPLACE:
                 self.used("inplace_method", m)
                 self.inplace(recv, e.lineno, "." + m)
@@ -423,6 +437,8 @@ class Analyzer(ast.NodeVisitor):
                                      kt=self.kind(f.value) and all(self.kind(z) for z in e.args) and all(self.kind(z.value) for z in e.keywords))
                     if u[1]:
                         self.fn.stmts.append(("let", x, "selfattr", [], False))
+                    if self.is_container(f.value.id):
+                        self.fn.def_container.add(x)
                     self.env[f.value.id] = frozenset([x]) | self.env[f.value.id]
                 return (recv[0], recv[1], True)
             if m in CLOSURE_M:
@@ -529,6 +545,7 @@ class Analyzer(ast.NodeVisitor):
             elif isinstance(t.value, ast.Name) and t.value.id in self.env and self.is_container(t.value.id):
                 u = self.union([tgt, a])
                 x = self.new_def(t.value.id, lineno, "alias", u[0], u[2], kt=kt and self.kind(t.value))
+                self.fn.def_container.add(x)
                 self.env[t.value.id] = frozenset([x]) | self.env[t.value.id]
             else:
                 self.inplace(tgt, lineno, "subscript-assign")
@@ -560,24 +577,18 @@ class Analyzer(ast.NodeVisitor):
         return False
 
     def is_container(self, name):
+        """every definition of `name` reaching this point is a python container (flow-sensitive), or the name is one of the
+        loop variables over lists-of-lists recognised by the pre-pass"""
+        ds = self.env.get(name)
+        if ds and all(d in self.fn.def_container for d in ds):
+            return True
         return name in self.containers
 
     def run(self):
         node = self.fn.node
-        self.containers = set()
-        for n in ast.walk(node):
-            if isinstance(n, ast.Assign) and isinstance(n.value, (ast.List, ast.Dict, ast.ListComp, ast.DictComp, ast.Set)) \
-                    or (isinstance(n, ast.Assign) and isinstance(n.value, ast.Call) and isinstance(n.value.func, ast.Name)
-                        and n.value.func.id in ("list", "dict", "set", "defaultdict", "OrderedDict")):
-                for t in n.targets:
-                    if isinstance(t, ast.Name):
-                        self.containers.add(t.id)
-            if isinstance(n, ast.Assign) and isinstance(n.value, ast.Call) and isinstance(n.value.func, ast.Attribute) \
-                    and n.value.func.attr == "copy" and not n.value.args:
-                # x.copy(): torch tensors have no .copy(); the result is a new python list / dict (shallow copy)
-                for t in n.targets:
-                    if isinstance(t, ast.Name):
-                        self.containers.add(t.id)
+        # python containers: names EVERY direct assignment of which creates a new list / dict / set; subscript assignment
+        # and `+=` on such a name update the container (what it holds), they do not write a tensor
+        self.containers = set()        # (flow-sensitive def-level flags decide; see is_container)
         # loop variables ranging over a container of python lists built by list(...) comprehensions
         for n in ast.walk(node):
             if isinstance(n, ast.Assign) and isinstance(n.value, ast.ListComp) and isinstance(n.value.elt, ast.Call) \
@@ -613,6 +624,8 @@ class Analyzer(ast.NodeVisitor):
                 self.fn.params.append(p.arg)
                 continue
             x = self.new_def(p.arg, node.lineno, "param", kt=self.param_is_tensor(p))
+            if (a.vararg and p is a.vararg) or (a.kwarg and p is a.kwarg):
+                self.fn.def_container.add(x)
             self.bind(p.arg, x)
             self.fn.param_defs[p.arg] = x
             self.fn.params.append(p.arg)
@@ -653,7 +666,11 @@ class Analyzer(ast.NodeVisitor):
             a = self.alias(st.value)
             n0 = self.fn.ndefs
             for t in st.targets:
-                self.assign_target(t, a, st.lineno, obj=o, kt=kt)
+                self.next_def_is_container = isinstance(t, ast.Name) and container_like(st.value)
+                try:
+                    self.assign_target(t, a, st.lineno, obj=o, kt=kt)
+                finally:
+                    self.next_def_is_container = False
             if any(isinstance(n, ast.Lambda) for n in ast.walk(st.value)) or \
                     (isinstance(st.value, ast.Call) and (self.dotted(st.value.func) or "").endswith("partial")):
                 self.fn.local_closure_defs.update(range(n0, self.fn.ndefs))
@@ -662,7 +679,12 @@ class Analyzer(ast.NodeVisitor):
             if st.value is not None:
                 o = self.objalias(st.value)
                 kt = self.kind(st.value)
-                self.assign_target(st.target, self.alias(st.value), st.lineno, obj=o, kt=kt)
+                a_ = self.alias(st.value)
+                self.next_def_is_container = isinstance(st.target, ast.Name) and container_like(st.value)
+                try:
+                    self.assign_target(st.target, a_, st.lineno, obj=o, kt=kt)
+                finally:
+                    self.next_def_is_container = False
             return
         if isinstance(st, ast.AugAssign):
             v = self.alias(st.value)
@@ -671,6 +693,15 @@ class Analyzer(ast.NodeVisitor):
                 cur = self.alias(t)
                 numeric = isinstance(st.value, ast.Constant) and isinstance(st.value.value, (int, float)) \
                     and t.id in self.fn.counter_names
+                if t.id in self.env and self.is_container(t.id) and isinstance(st.op, (ast.Add, ast.Mult, ast.BitOr)):
+                    # list += ... / dict |= ...: the (local) container now also holds the operands; no tensor is written
+                    u = self.union([cur, v])
+                    x = self.new_def(t.id, st.lineno, "alias" if (u[0] or u[1]) else "fresh", u[0], True, kt=self.kind(t) and self.kind(st.value))
+                    if u[1]:
+                        self.fn.stmts.append(("let", x, "selfattr", [], False))
+                    self.fn.def_container.add(x)
+                    self.env[t.id] = frozenset([x]) | self.env[t.id]
+                    return
                 if not numeric:
                     self.inplace(cur, st.lineno, "augassign")
                 x = self.new_def(t.id, st.lineno, "alias" if (cur[0] or cur[1]) else "fresh", cur[0], True, obj=self.objalias(t),
@@ -768,6 +799,19 @@ class Analyzer(ast.NodeVisitor):
 
 
 # ----------------------------------------------------------------------------------------
+
+def container_like(v):
+    """expression that creates a NEW python list / dict / set"""
+    if isinstance(v, (ast.List, ast.Dict, ast.Set, ast.ListComp, ast.DictComp, ast.SetComp)):
+        return True
+    if isinstance(v, ast.Call) and isinstance(v.func, ast.Name) and v.func.id in ("list", "dict", "set", "defaultdict", "OrderedDict", "sorted"):
+        return True
+    if isinstance(v, ast.Call) and isinstance(v.func, ast.Attribute) and v.func.attr == "copy" and not v.args:
+        return True       # x.copy(): torch tensors have no .copy(); a new python list / dict (shallow copy)
+    if isinstance(v, ast.BinOp) and isinstance(v.op, (ast.Add, ast.Mult)):
+        return container_like(v.left) or container_like(v.right)
+    return False
+
 
 def free_names(node):
     """names loaded in a nested function that are not bound in it (captured from the enclosing scope)"""
